@@ -1,13 +1,17 @@
 #!/bin/sh
-# tools/seed_batch.sh C03 C05 ...   evaluate all three sub-agent changes of each property, keep them under /verif/seeded
+# tools/seed_batch.sh [-s SRCPREFIX] [-o OFFSET] C03 C05 ...
+# evaluates the three sub-agent changes of each property in <SRCPREFIX><id>/_mutants and keeps them as /verif/seeded/<id>-<k+OFFSET>
+SRC=/tmp/mut-; OFF=0
+while getopts s:o: f; do case $f in s) SRC=$OPTARG;; o) OFF=$OPTARG;; esac; done; shift $((OPTIND-1))
 for P in "$@"; do
   for k in 1 2 3; do
-    [ -f /tmp/mut-$P/_mutants/patch_$k.diff ] || continue
-    python3 /verif/tools/seed_eval.py /tmp/mut-$P/_mutants $k --keep-as $P-$k 2>&1 | grep -v conda | python3 -c "
+    [ -f $SRC$P/_mutants/patch_$k.diff ] || continue
+    N=$((k+OFF))
+    python3 /verif/tools/seed_eval.py $SRC$P/_mutants $k --keep-as $P-$N 2>&1 | grep -v conda | python3 -c "
 import sys,json
 o=json.loads(sys.stdin.read().strip().split('\n')[-1])
 ok = o.get('applies') and o.get('tests_pass') and o.get('demo_fails_with_patch') and o.get('demo_passes_without')
-print('$P-$k', 'VALID' if ok else 'INVALID(applies=%s tests=%s demo_w=%s demo_wo=%s)'%(o.get('applies'),o.get('tests_pass'),o.get('demo_fails_with_patch'),o.get('demo_passes_without')), '|', (o.get('summary') or '')[:110])
+print('$P-$N', 'VALID' if ok else 'INVALID(applies=%s tests=%s demo_w=%s demo_wo=%s)'%(o.get('applies'),o.get('tests_pass'),o.get('demo_fails_with_patch'),o.get('demo_passes_without')), '|', (o.get('summary') or '')[:110])
 for c,r in o.get('checks',{}).items(): print('    ',c,'rc',r['rc'], (r['lines'][1] if len(r['lines'])>1 else r['lines'][:1]))
 "
   done
